@@ -47,7 +47,8 @@ PROPS = {
     level_note=LN_RING,
     lean=["C01", "C01_LockRing", "C13_ZeroCopy"],
     scenarios=[ring("atomic", "mixed", 1600), ring("fullsync", "mixed", 1600)] +
-              [dict(bin="uni", args=[f"kind={k}", "sub=flow"], runs=300, model_name="M8 Wake", kinds=["invented", "duplicate", "rejected_delivered", "lost", "panic"]) for k in UNI_KINDS],
+              [dict(bin="uni", args=[f"kind={k}", "sub=flow"], runs=300, model_name="M8 Wake", kinds=["invented", "duplicate", "rejected_delivered", "lost", "panic"]) for k in UNI_KINDS] +
+              [dict(bin="uni", args=[f"kind={k}", "sub=cancel"], runs=300, model_name="M8 Wake", kinds=["buffered_event_dropped_at_end", "invented", "duplicate", "rejected_delivered", "panic"]) for k in UNI_KINDS],
     rule=RING_RULE,
     trusted_base=TB_COMMON + ["crossbeam-channel (movable crossbeam Uni channel) is trusted to be a linearizable bounded MPMC queue"],
     assumptions=["payloads are distinct integers (the containers are payload-agnostic)"],
@@ -141,7 +142,7 @@ PROPS = {
     level_text="Lean 4 proof, for every execution of model M8 (cancel requests at any point, concurrent sends, spurious polls): a stream whose keep-running flag was cleared is never left parked and un-notified once the cancel's wake call has finished, it ends at its first empty consume, yields only buffered events meanwhile, and a cancel touches no other stream's flag / waker / state; counterexample theorem for `untargeted streams keep being woken` on Uni channels (recorded finding). Tied to the code by step-level replay; the scheduler decides `parked forever`.",
     level_note="Theorem about model M8 under the hypothesis that different streams are driven by tasks with different wakers (TokRun); stream-id recycling is C10's bookkeeping theorem. Known finding: ending a proper subset of a Uni channel's streams starves the others.",
     lean=["C07"],
-    scenarios=[dict(bin="uni", args=[f"kind={k}", "sub=cancel"], runs=500, model_name="M8 Wake", kinds=["cancelled_stream_never_ended", "untargeted_stream_starved", "no_progress", "panic", "invented", "duplicate"]) for k in UNI_KINDS] +
+    scenarios=[dict(bin="uni", args=[f"kind={k}", "sub=cancel"], runs=500, model_name="M8 Wake", kinds=["cancelled_stream_never_ended", "untargeted_stream_starved", "buffered_event_dropped_at_end", "no_progress", "panic", "invented", "duplicate"]) for k in UNI_KINDS] +
               [dict(bin="multi", args=[f"kind={k}", "sub=cancelall"], runs=400, model=False, model_name="(oracle only: cancel_all_streams racing with the removal of a listener, Multi channels)", kinds=["cancelled_stream_never_ended", "no_progress", "panic"]) for k in MULTI_KINDS],
     rule=UNI_RULE + "; cancel requests for a random subset of the streams are injected after a random number of scheduler turns; `multi sub=cancelall`: 2-3 listeners of a Multi channel (MAX_STREAMS = 4) driven by tasks polled only while notified, one thread removing a listener, one calling cancel_all_streams(), a producer sending 0-2 events",
     trusted_base=TB_COMMON,
@@ -203,14 +204,14 @@ PROPS = {
  ),
  "C06": dict(
     level_text="Lean 4 proof about the event machine of one executor and its channel (accepted / yielded / finished / close called / close returned / callback; internal steps: flush sees nothing pending -> cancel; cancelled stream ends when nothing is buffered; for_each drops the stream after the item in flight, for_each_concurrent as soon as the stream ended): for sequential executors and for non-future items, whenever close has returned every event accepted before the call is processed, nothing is in flight, the stream is dropped; accepted events are never discarded (pending ++ inflight ++ finished is a permutation of the accepted ids); counterexample theorem for concurrent executors with future items (recorded finding). Tied to the code at history level: event logs of real Uni runs on tokio must be accepted by the machine (they are, including the failing ones) and are judged by the oracle.",
-    level_note="Model M11 covers closes with an unbounded timeout; tokio / futures contracts trusted (which orders occur is observed, the model allows every order they could choose). Known finding D6.",
+    level_note="Model M11: any number of close calls, bounded closes that expire (closeExpired) and cancel_all_streams() given before a close (cancelAll) included; tokio / futures contracts trusted (which orders occur is observed, the model allows every order they could choose). Known finding D6.",
     lean=["C06"],
     scenarios=[dict(bin="exec", args=["sub=close"], runs=200, thorough_scale=40, model_name="M11 Exec", kinds=["close_before_processed", "panic"]), dict(bin="exec", args=["sub=close", "rt=multi"], runs=12, single=True, thorough_scale=10, model_name="M11 Exec", kinds=["close_before_processed", "panic"]),
                dict(bin="exec", args=["sub=mclose"], runs=80, single=True, thorough_scale=10, model_name="M11 Exec (one event machine per listener)", kinds=["close_before_processed", "close_callback_count", "panic"]),
-               dict(bin="exec", args=["sub=reclose"], runs=60, model=False, single=True, thorough_scale=10, model_name="(oracle only: the end signal was given before the graceful close)", kinds=["close_before_processed", "close_callback_count", "close_failed", "panic"])],
+               dict(bin="exec", args=["sub=reclose"], runs=60, single=True, thorough_scale=10, model_name="M11 Exec (end signal given before the graceful close: cancelAll / closeExpired / several closes)", kinds=["close_before_processed", "close_callback_count", "close_failed", "panic"])],
     rule="random executor kind, limit 1-4, 0-6 events (sync / future / slow / failing items), close() called 1 ms after the sends (events buffered and / or in flight); `mclose`: the five queue-per-listener Multi kinds with 2-3 listeners (sequential futures executors) whose items take 0 / 3 / 10 ms, 1-12 events; `reclose`: sequential futures executor with 1-6 slow events and an unbounded close() issued after a bounded close that expired / after cancel_all_streams() / while another close() is waiting; DISTINCT by event log; NON-TRIVIAL if more than one event",
     trusted_base=TB_COMMON + ["tokio and futures 0.3 contracts as in C11"],
-    assumptions=["unbounded close timeout"],
+    assumptions=["the property is about closes with an unbounded timeout (bounded ones may give up; the model has them as closeExpired)"],
  ),
  "C12": dict(
     level_text="Lean 4 proof on the same event machine: the close callback occurs at most once, only when the stream is dropped and nothing is in flight, and no item is yielded or finished after it, for every executor kind and limit; status word: register_execution_finish only produces one of the two ended states and ProgrammaticallyEnded exactly from ScheduledToFinish (remark theorem: a report_scheduled_to_finish store landing after it leaves a non-ended status); the Uni latch fires the user callback exactly once, at the n-th executor; with the newies executor spawned inside the oldies' callback every old item is processed before any new one. Tied to the code at history level (event logs of real tokio runs; status and start/finish deltas read inside the real callback).",
